@@ -251,6 +251,28 @@ class Checker(object):
             ("MSS", "kept MSSubstituter", lambda f, s, i: self.kept["MSS"].substitute(f, s, interpretations=i)),
         ]
 
+        def via_shortcut(f, s, i):
+            import pysmt.shortcuts
+            return pysmt.shortcuts.substitute(f, s, i)
+
+        def grown_in_place(f, s, i):
+            # one dict object: substituted with all keys but the last, extended in place, substituted again
+            items = list(s.items())
+            if len(items) < 2:
+                return env.substituter.substitute(f, s, i)
+            dct = dict(items[:-1])
+            try:
+                env.substituter.substitute(f, dct, i)
+            except Exception:
+                self._reset()
+            dct.update(items[-1:])
+            return env.substituter.substitute(f, dct, i)
+        # further entry points of the default strategy, run for every case (not part of the rotation)
+        self.extra_routes = [
+            (d, "shortcuts.substitute", via_shortcut),
+            (d, "env.substituter with the map grown in place", grown_in_place),
+        ]
+
     def sort(self, t):
         return compile_term(t, self.cm)[0]
 
@@ -306,6 +328,7 @@ class Checker(object):
         if lean is not None:
             pair = self.LEAN[self.ms_env][lean % 6]
             routes = [routes[pair[0]], routes[pair[1]]]
+        routes = list(routes) + self.extra_routes
         for st, route, call in routes:
             want = refs[st]
             if isinstance(want, RefRaised):
